@@ -324,6 +324,10 @@ class Interp:
             return b_or(*[g for g, _ in v.items])
         if isinstance(v, SSeq):
             return mk_bool(T(v.n) > 0)
+        if type(v).__name__ == 'SBytes':
+            return mk_bool(T(v.n) > 0)       # a byte string is true iff it is not empty
+        if isinstance(v, (bytes, bytearray)):
+            return len(v) > 0
         if isinstance(v, SSet):
             return len(v.items) > 0
         if isinstance(v, SObj):
